@@ -305,6 +305,9 @@ pub fn run(session: &Session, prop: &'static Soundness) -> i32 {
     for text in crate::genr::nearmiss::redeclaration_programs() {
         cases.push(json!({"kind": "near-miss", "text": text}));
     }
+    for text in crate::genr::nearmiss::never_iterator_programs() {
+        cases.push(json!({"kind": "program", "text": text}));
+    }
     for text in crate::genr::nearmiss::cell_widening_programs() {
         cases.push(json!({"kind": "near-miss", "text": text}));
     }
